@@ -21,6 +21,8 @@ import pathlib
 import struct
 from typing import Any, Callable, Dict, Iterable, List, Optional, Tuple, Union
 
+from .inline import InlineBlock, InlineJump
+
 from .model import Program, Func, Module, unparse
 
 
@@ -358,6 +360,9 @@ class Evaluator:
         self.paths += 1
         if self.paths > self.max_paths * 50:
             raise Unsupported("too many paths")
+        if isinstance(st, InlineJump):
+            # end of an expanded helper (a former `return`): leaves the enclosing InlineBlock
+            return [Outcome("jump", None, None, list(self.events), env, list(self.conds))]
         if isinstance(st, ast.Return):
             v = self.eval(st.value, env, scope) if st.value is not None else Const(None)
             return [Outcome("return", v, None, list(self.events), env, list(self.conds))]
@@ -468,6 +473,11 @@ class Evaluator:
             return self._fall(env)
         if isinstance(st, ast.While):
             raise Unsupported("while")
+        if isinstance(st, InlineBlock):
+            res_b: List[Outcome] = []
+            for o in self.exec_block(st.body, env, scope):
+                res_b.append(Outcome("fall", None, None, o.events, o.env if o.env is not None else env, o.conds) if o.kind == "jump" else o)
+            return res_b
         if isinstance(st, ast.With):
             for it_ in st.items:
                 v = self.eval(it_.context_expr, env, scope)
